@@ -87,6 +87,19 @@ func (c *client) MountBlob(ctx context.Context, fromRepo, toRepo string, dig oci
 }
 
 func (c *client) PushBlob(ctx context.Context, repo string, desc ociregistry.Descriptor, r io.Reader) (_ ociregistry.Descriptor, _err error) {
+	// net/http only checks the body length against a positive ContentLength:
+	// a zero ContentLength with a non-empty body means "unknown length".
+	// Check those cases here so that a mismatching size is always refused.
+	if desc.Size < 0 {
+		return ociregistry.Descriptor{}, fmt.Errorf("negative size in descriptor: %w", ociregistry.ErrSizeInvalid)
+	}
+	if desc.Size == 0 && r != nil {
+		var buf [1]byte
+		if n, _ := io.ReadFull(r, buf[:]); n > 0 {
+			return ociregistry.Descriptor{}, fmt.Errorf("blob content is not empty but descriptor size is 0: %w", ociregistry.ErrSizeInvalid)
+		}
+		r = nil
+	}
 	// TODO use the single-post blob-upload method (ReqBlobUploadBlob)
 	// See:
 	//	https://github.com/distribution/distribution/issues/4065
